@@ -445,7 +445,10 @@ class Merger:
             # This list is an Array-of-Arrays or a simple list of Scalars
             return self._merge_simple_lists(lhs, rhs, path, node_coord)
 
-        # No RHS list
+        # No RHS list; the destination must still be able to receive one
+        if not isinstance(lhs, CommentedSeq):
+            raise MergeException(
+                "Impossible to add Array data to non-Array destination.", path)
         return lhs
 
     def _merge_sets(
